@@ -1,13 +1,62 @@
 import Rooc.Wire
-import Rooc.Oracle
+import Rooc.WireSolve
+import Rooc.SolveOracle
 namespace Rooc.Drv.C04
-open Rooc Sexp
+open Rooc Sexp SolverWrap
 
-/-- model requests for C04 (run at `Float` for the exact diff, at `Ext Rat` as oracle). -/
+def strs (l : List Sexp) : Option (List String) := optAll (l.map fun | .str s => some s | _ => none)
+
+/-- model requests for C04: rooc's own wrapper code applied to the external solver's raw answer. -/
 def handle (α : Type) [Arith α] [Wire α] : List Sexp → Sexp
+  | [.atom "milp-wrap", lm, out] =>
+    match (LinModel.dec lm : Option (LinModel α)), (MlpOutcome.dec out : Option (MlpOutcome α)) with
+    | some lm, some out => (wrapMilp lm out).enc lm.vars
+    | _, _ => app "err" [.atom "decode"]
+  | [.atom "milp-wrap-fixed", lm, out] =>
+    match (LinModel.dec lm : Option (LinModel α)), (MlpOutcome.dec out : Option (MlpOutcome α)) with
+    | some lm, some out => (wrapMilpFixed lm out).enc lm.vars
+    | _, _ => app "err" [.atom "decode"]
+  | [.atom "auto-wrap", lm, out] =>
+    match (LinModel.dec lm : Option (LinModel α)), (MlpOutcome.dec out : Option (MlpOutcome α)) with
+    | some lm, some out => (wrapAuto lm out).enc lm.vars
+    | _, _ => app "err" [.atom "decode"]
+  | [.atom "microlp-wrap", lm, out] =>
+    match (LinModel.dec lm : Option (LinModel α)), (MlpOutcome.dec out : Option (MlpOutcome α)) with
+    | some lm, some out => (wrapMicroLp lm out).enc lm.vars
+    | _, _ => app "err" [.atom "decode"]
+  | [.atom "clarabel-wrap", lm, out] =>
+    match (LinModel.dec lm : Option (LinModel α)), (ClarabelOutcome.dec out : Option (ClarabelOutcome α)) with
+    | some lm, some out => (wrapClarabel lm out).enc lm.vars
+    | _, _ => app "err" [.atom "decode"]
+  | [.atom "clarabel-wrap-v", .atom e, .atom pc, lm, out, feas] =>
+    match (LinModel.dec lm : Option (LinModel α)), (ClarabelOutcome.dec out : Option (ClarabelOutcome α)),
+          (ClarabelOutcome.dec feas : Option (ClarabelOutcome α)) with
+    | some lm, some out, some feas =>
+      (wrapClarabelV { emptyModelHandled := e == "1", primalCheck := pc == "1" } lm out feas).enc lm.vars
+    | _, _, _ => app "err" [.atom "decode"]
+  | [.atom "as-lp-solution", .list names, .list values, value] =>
+    match strs names, optAll (values.map (decNumS (α := α))), (decNumS value : Option α) with
+    | some names, some values, some value => (asLpSolution names values value).enc names
+    | _, _, _ => app "err" [.atom "decode"]
+  | [.atom "assign-map", .list pairs] =>
+    match (decPairs pairs : Option (List (String × α))) with
+    | some ps => app "ok" (encPairs (buildAssignmentMap ps))
+    | none => app "err" [.atom "decode"]
+  | [.atom "calc", lm, .list values] =>
+    match (LinModel.dec lm : Option (LinModel α)), optAll (values.map (decNumS (α := α))) with
+    | some lm, some values =>
+      let enc1 : Option α → Sexp | some v => encNum v | none => .atom "panic"
+      let encL : Option (List (String × α)) → Sexp | some l => .list (encPairs l) | none => .atom "panic"
+      app "ok" [enc1 (calcObjective lm values), encL (calcConstraints lm values), encL (constraintsMap lm values)]
+    | _, _ => app "err" [.atom "decode"]
   | _ => app "err" [.atom "bad-request"]
 
 /-- exact oracle: the PROPERTY evaluated on the implementation's own answer. -/
 def oracle : List Sexp → Sexp
+  | [.atom "check-solution", lm, .atom solver, res] =>
+    match (LinModel.dec lm : Option (LinModel (Ext Rat))), (ImplRes.dec res : Option (ImplRes (Ext Rat))) with
+    | some lm, some (.ok s byname) => SolveOracle.checkSolution lm solver s byname
+    | some _, some _ => app "ok" [.atom "no-solution"]
+    | _, _ => app "err" [.atom "decode"]
   | _ => app "err" [.atom "bad-request"]
 end Rooc.Drv.C04
